@@ -45,7 +45,10 @@ type dialer struct {
 }
 
 func (d *dialer) Dial() (_ transport.Pipe, err error) {
-	conn, err := d.d.Dial("tcp", d.addr)
+	d.lock.Lock()
+	nd := d.d // SetOption may change the keep-alive settings meanwhile
+	d.lock.Unlock()
+	conn, err := nd.Dial("tcp", d.addr)
 	if err != nil {
 		return nil, err
 	}
@@ -135,7 +138,10 @@ type listener struct {
 
 func (l *listener) Accept() (transport.Pipe, error) {
 
-	if l.l == nil {
+	l.lock.Lock()
+	listening := l.l != nil
+	l.lock.Unlock()
+	if !listening {
 		return nil, mangos.ErrClosed
 	}
 	return l.handshaker.Wait()
@@ -147,14 +153,25 @@ func (l *listener) Listen() (err error) {
 		return mangos.ErrClosed
 	default:
 	}
-	l.l, err = l.lc.Listen(context.Background(), "tcp", l.addr)
+	inner, err := l.lc.Listen(context.Background(), "tcp", l.addr)
 	if err != nil {
 		return
 	}
-	l.bound = l.l.Addr()
+	l.lock.Lock()
+	select {
+	case <-l.closeq:
+		// Closed while we were binding.
+		l.lock.Unlock()
+		_ = inner.Close()
+		return mangos.ErrClosed
+	default:
+	}
+	l.l = inner
+	l.bound = inner.Addr()
+	l.lock.Unlock()
 	go func() {
 		for {
-			conn, err := l.l.Accept()
+			conn, err := inner.Accept()
 			if err != nil {
 				select {
 				case <-l.closeq:
@@ -179,7 +196,10 @@ func (l *listener) Listen() (err error) {
 }
 
 func (l *listener) Address() string {
-	if b := l.bound; b != nil {
+	l.lock.Lock()
+	b := l.bound
+	l.lock.Unlock()
+	if b != nil {
 		return "tcp://" + b.String()
 	}
 	return "tcp://" + l.addr
@@ -187,9 +207,12 @@ func (l *listener) Address() string {
 
 func (l *listener) Close() error {
 	l.once.Do(func() {
+		l.lock.Lock()
 		close(l.closeq)
-		if l.l != nil {
-			_ = l.l.Close()
+		inner := l.l
+		l.lock.Unlock()
+		if inner != nil {
+			_ = inner.Close()
 		}
 		l.handshaker.Close()
 	})
